@@ -704,15 +704,23 @@ class Interp:
         (e1, p1), (e2, p2) = outs
         merged = {}
         ok = True
+        # phase 1: can every variable be joined?  (nothing of the original state is touched: a join written into an original array and then
+        # abandoned would leave a half-merged state behind for the forked paths)
         for k in set(e1) | set(e2):
             if k not in e1 or k not in e2:
                 ok = False
                 break
-            mv = self.merge_val(c, e1[k], e2[k], saved_env.get(k))
-            if mv is _NOMERGE:
+            if self.merge_val(c, e1[k], e2[k], saved_env.get(k), commit=False) is _NOMERGE:
                 ok = False
                 break
-            merged[k] = mv
+        # phase 2: commit (arrays, lists and objects that existed before keep their identity: the join is written into them)
+        if ok:
+            for k in set(e1) | set(e2):
+                mv = self.merge_val(c, e1[k], e2[k], saved_env.get(k))
+                if mv is _NOMERGE:
+                    ok = False
+                    break
+                merged[k] = mv
         if not ok:
             fr.env = saved_env
             self.pc = saved_pc
@@ -730,7 +738,8 @@ class Interp:
         self.pc = saved_pc + [z3.Implies(c, z(x)) for x in p1] + [z3.Implies(z3.Not(c), z(x)) for x in p2]
         return True
 
-    def merge_val(self, c, a, b, orig):
+    def merge_val(self, c, a, b, orig, commit=True):
+        """Join of the two branch values under condition c.  With commit=False nothing that existed before the branches is written (dry run: can it be joined?)."""
         if a is b:
             return a
         if isinstance(a, NDArr) and isinstance(b, NDArr):
@@ -740,23 +749,26 @@ class Interp:
             if any(v is _NOMERGE for v in d.reshape(-1)):
                 return _NOMERGE
             if isinstance(orig, NDArr) and orig.shape == a.shape:
-                orig.data[...] = d
-                orig.kind = a.kind
+                if commit:
+                    orig.data[...] = d
+                    orig.kind = a.kind
                 return orig
             return NDArr(d, a.kind)
         if isinstance(a, (NDArr, Obj, list, dict)) or isinstance(b, (NDArr, Obj, list, dict)):
             if isinstance(a, list) and isinstance(b, list) and len(a) == len(b) and isinstance(orig, list):
-                vals = [self.merge_val(c, x, y, None) for x, y in zip(a, b)]
+                vals = [self.merge_val(c, x, y, None, commit) for x, y in zip(a, b)]
                 if any(v is _NOMERGE for v in vals):
                     return _NOMERGE
-                orig[:] = vals
+                if commit:
+                    orig[:] = vals
                 return orig
             if isinstance(a, Obj) and isinstance(b, Obj) and isinstance(orig, Obj) and set(a.fields) == set(b.fields):
-                vals = {k: self.merge_val(c, a.fields[k], b.fields[k], orig.fields.get(k)) for k in a.fields}
+                vals = {k: self.merge_val(c, a.fields[k], b.fields[k], orig.fields.get(k), commit) for k in a.fields}
                 if any(v is _NOMERGE for v in vals.values()):
                     return _NOMERGE
-                orig.fields.clear()
-                orig.fields.update(vals)
+                if commit:
+                    orig.fields.clear()
+                    orig.fields.update(vals)
                 return orig
             return _NOMERGE
         if isinstance(a, tuple) and isinstance(b, tuple) and len(a) == len(b):
@@ -1291,7 +1303,12 @@ class Interp:
             if attr == "__class__":
                 return base.cls
             if attr in base.cls.attrs:
-                return self.eval(base.cls.attrs[attr], Frame(base.cls.mod, {}, base.cls))
+                v_ = self.eval(base.cls.attrs[attr], Frame(base.cls.mod, {}, base.cls))
+                if type(v_).__name__ == "StaticFn":
+                    return v_.fn
+                if isinstance(v_, FuncVal) and v_.bound is None and isinstance(base.cls.attrs[attr], ast.Name):
+                    return FuncVal(v_.mod, v_.node, v_.cls, bound=base, closure=getattr(v_, "closure", None))     # a plain function stored on the class is a method
+                return v_
             raise PyRaise("AttributeError", attr)
         if isinstance(base, ClassVal):
             m = self.find_method(base, attr)
@@ -1303,7 +1320,8 @@ class Interp:
             if attr == "__name__":
                 return base.name
             if attr in base.attrs:
-                return self.eval(base.attrs[attr], Frame(base.mod, {}, base))
+                v_ = self.eval(base.attrs[attr], Frame(base.mod, {}, base))
+                return v_.fn if type(v_).__name__ == "StaticFn" else v_
             raise PyRaise("AttributeError", attr)
         if isinstance(base, ModRef):
             dotted = base.dotted + "." + attr
@@ -1485,6 +1503,8 @@ class Interp:
 
     def subscript(self, base, idx):
         from .strings import SStr
+        if type(base).__name__ == "IndexExprVal":
+            return (idx,) if (base.always_tuple and not isinstance(idx, tuple)) else idx
         if isinstance(base, NDArr):
             cidx = self.concrete_index(base, idx)
             if cidx is not None:
